@@ -39,6 +39,8 @@ type LockCfg struct {
 	MaxMissed   int64      `json:"max_missed"`
 	SlashDown   string     `json:"slash_down"`
 	SlashDouble string     `json:"slash_double"`
+	// Start > 1: the chain's initial height (heights around 64 halving intervals and far beyond are of interest)
+	Start       int64      `json:"start,omitempty"`
 	UnlockSec   int        `json:"unlock_sec"`
 	ExitSec     int        `json:"exit_sec"`
 	JailSec     int        `json:"jail_sec"`
@@ -284,6 +286,9 @@ var lockElectingPeriod = 1000 * time.Hour
 
 func (c LockCfg) spec() world.GenesisSpec {
 	spec := world.DefaultSpec(0, 2)
+	if c.Start > 1 {
+		spec.InitialHeight = c.Start
+	}
 	spec.RelayerParams.ElectingPeriod = lockElectingPeriod
 	spec.Tokens = nil
 	for i, t := range c.Tokens {
